@@ -492,6 +492,34 @@ def oracle_accept_order(P):
                 if older_valid:
                     hits.append({"sig": {"oracle": "accept_order", "what": "newer_syn_overtakes"},
                                  "text": f"`{st['line'][:40]}`: the SYN that just arrived from {port} (id {d['cid']}) was handed to an accept call while the earlier SYN {older_valid[0]} is still waiting in the backlog"})
+        # the backlog is a FIFO: between two observations its order never changes - elements leave, and at most the
+        # SYN processed in this step joins at the back
+        for st in tr.steps:
+            f, b = st["fp"], st["fp_before"]
+            if hits or not f or b is None or st["op"] == "new":
+                continue
+            L, L2 = list(b["syns"]), list(f["syns"])
+            i = k = 0
+            while k < len(L2):
+                j = i
+                while j < len(L) and L[j] != L2[k]:
+                    j += 1
+                if j == len(L):
+                    break
+                i, k = j + 1, k + 1
+            rest = L2[k:]
+            arrived = None
+            if "dgram" in st:
+                port, hx = st["dgram"]
+                try:
+                    d = parse_dgram(hx) if len(hx) >= 40 else None
+                except Exception:
+                    d = None
+                if d and d["type"] == ST_SYN:
+                    arrived = f"127.0.0.1:{port}/{d['cid']}/{d['seq']}"
+            if rest and rest != [arrived]:
+                hits.append({"sig": {"oracle": "accept_order", "what": "backlog_reordered"},
+                             "text": f"`{st['line'][:40]}`: the backlog of pending connection requests changed order: before {L}, after {L2} (a request that was waiting is now behind one that arrived later): accept calls will be served out of arrival order"})
         return hits[:2]
     return orc
 
